@@ -268,6 +268,10 @@ func getKc(ruleString string) (*base.KnowledgeContext, error) {
 }
 
 func updateIncremental(kc *base.KnowledgeContext, rb *builder.RuleBuilder) {
+	//the installed rule set may be in use by running executions: it is never written, the merge result is
+	//built in copies and installed as a new rule set at the end
+	sortRulesIndexMap := rb.Kc.SortRulesIndexMap
+
 	//copy
 	newRuleEntities := make(map[string]*base.RuleEntity, len(rb.Kc.RuleEntities))
 	for mk, mv := range rb.Kc.RuleEntities {
@@ -286,7 +290,7 @@ func updateIncremental(kc *base.KnowledgeContext, rb *builder.RuleBuilder) {
 		if vm, ok := newRuleEntities[k]; ok {
 			//repalce update
 			//search
-			index := rb.Kc.SortRulesIndexMap[v.RuleName]
+			index := sortRulesIndexMap[v.RuleName]
 			if v.Salience == vm.Salience {
 				//replace
 				newSortRules[index] = v
@@ -308,7 +312,7 @@ func updateIncremental(kc *base.KnowledgeContext, rb *builder.RuleBuilder) {
 				for k, v := range newSortRules {
 					indexMap[v.RuleName] = k
 				}
-				rb.Kc.SortRulesIndexMap = indexMap
+				sortRulesIndexMap = indexMap
 			}
 
 			newRuleEntities[k] = v
@@ -330,14 +334,17 @@ func updateIncremental(kc *base.KnowledgeContext, rb *builder.RuleBuilder) {
 			for k, v := range newSortRules {
 				indexMap[v.RuleName] = k
 			}
-			rb.Kc.SortRulesIndexMap = indexMap
+			sortRulesIndexMap = indexMap
 
 			newRuleEntities[k] = v
 		}
 	}
 
-	rb.Kc.RuleEntities = newRuleEntities
-	rb.Kc.SortRules = newSortRules
+	newKc := base.NewKnowledgeContext()
+	newKc.RuleEntities = newRuleEntities
+	newKc.SortRules = newSortRules
+	newKc.SortRulesIndexMap = sortRulesIndexMap
+	rb.Kc = newKc
 }
 
 //sync method
